@@ -41,6 +41,8 @@ pub enum Desc {
 	Rnd { target: u16, k: u32, ver: u32, rd: Rd, ct: Ct },
 	Pre { seed: u32, k: u32, ver: u32, rd: Rd },
 	Frame { ty: u8, k: u32, ver: u32, ct: Ct },
+	/// regression inputs of defects found by this engine and repaired since (see known_findings.json)
+	Reg { n: u32, ver: u32, rd: Rd },
 }
 
 pub struct Case {
@@ -63,6 +65,8 @@ pub struct Space {
 	pub ops: Vec<(u32, Op, Value)>,
 	pub descs: Vec<Desc>,
 	pub seed: u64,
+	/// (target, bytes, aux, ctx, label)
+	pub regs: Vec<(usize, Vec<u8>, u64, Option<Vec<u8>>, String)>,
 }
 
 /// targets whose behaviour depends on the chain type (proof size, block weight, PoW variant)
@@ -195,8 +199,47 @@ impl Space {
 				}
 			}
 		}
+		// ---- regression inputs
+		let mut regs: Vec<(usize, Vec<u8>, u64, Option<Vec<u8>>, String)> = vec![];
+		for (txt, l) in [("0", "odd_length"), ("zz", "non_hex"), ("a\u{e9}a", "non_ascii")].iter() {
+			regs.push((tix("MerkleProof::from_hex"), txt.as_bytes().to_vec(), 0, None, format!("from_hex:{}", l)));
+			regs.push((tix("util::from_hex"), txt.as_bytes().to_vec(), 0, None, format!("from_hex:{}", l)));
+		}
+		for (pl, l) in [(0xffff_ffff_ffff_fffeu64, "capacity_overflow"), (0xffff_ffff, "abort"), (0x10000, "over_bound"), (1_000_000, "limit")].iter() {
+			let mut b = 10u64.to_be_bytes().to_vec();
+			b.extend_from_slice(&pl.to_be_bytes());
+			regs.push((tix("MerkleProof::read"), b.clone(), 0, None, format!("path_len:{}", l)));
+			regs.push((tix("MerkleProof::from_hex"), crate::worker::hex(&b).into_bytes(), 0, None, format!("path_len:{}", l)));
+		}
+		for (ct, sd) in seeds.iter() {
+			if *ct == Ct::Auto && sd.target.contains("Segment") && !sd.target.contains("Bitmap") {
+				if let Some(f) = sd.fields.iter().find(|f| f.kind == "u8") {
+					for add in [64u8, 128, 192].iter() {
+						let mut b = sd.bytes.clone();
+						b[f.off] = b[f.off].wrapping_add(*add);
+						regs.push((tix(sd.target), b, sd.aux, sd.ctx.clone(), format!("segment_height_plus_{}:{}", add, sd.label)));
+					}
+					// identifier idx beyond the last segment
+					if let Some(g) = sd.fields.iter().find(|g| g.kind == "u64") {
+						let mut b = sd.bytes.clone();
+						b[g.off..g.off + 8].copy_from_slice(&1000u64.to_be_bytes());
+						regs.push((tix(sd.target), b, sd.aux, sd.ctx.clone(), format!("segment_idx_beyond:{}", sd.label)));
+					}
+				}
+			}
+		}
 		// ---- descriptors
 		let mut descs = vec![];
+		for (n, r) in regs.iter().enumerate() {
+			if targets[r.0].kind == TKind::Ser {
+				for v in VERSIONS.iter() {
+					descs.push(Desc::Reg { n: n as u32, ver: *v, rd: Rd::Bin });
+					descs.push(Desc::Reg { n: n as u32, ver: *v, rd: Rd::Buf });
+				}
+			} else {
+				descs.push(Desc::Reg { n: n as u32, ver: 1000, rd: Rd::Bin });
+			}
+		}
 		let kind_of = |s: &SeedEnc| targets[tix(s.target)].kind;
 		for (i, (_, s)) in seeds.iter().enumerate() {
 			if kind_of(s) == TKind::Ser {
@@ -267,7 +310,7 @@ impl Space {
 				descs.push(Desc::Frame { ty, k, ver: VERSIONS[(k % 4) as usize], ct });
 			}
 		}
-		Space { targets, seeds, ops, descs, seed }
+		Space { targets, seeds, ops, descs, seed, regs }
 	}
 
 	pub fn target_index(&self, name: &str) -> usize {
@@ -403,6 +446,21 @@ impl Space {
 					aux: if r & 8 == 0 { s.aux } else { splitmix(&mut st) & !(1 << 63) },
 					ctx: s.ctx.clone(),
 					origin: json!({"gen": "prefix", "seed": s.label, "enc_ver": s.ver, "k": k, "cut": cut}),
+					expect_ok: false,
+					expect_post: false,
+				}
+			}
+			Desc::Reg { n, ver, rd } => {
+				let r = &self.regs[*n as usize];
+				Case {
+					target: r.0,
+					ver: *ver,
+					rd: *rd,
+					ct: Ct::Auto,
+					bytes: r.1.clone(),
+					aux: r.2,
+					ctx: r.3.clone(),
+					origin: json!({"gen": "regress", "label": r.4}),
 					expect_ok: false,
 					expect_post: false,
 				}
